@@ -33,6 +33,10 @@ def gen_world(rng, i, tier):
                 m = None
         if m:
             w["mutation"] = m
+    if gen.name_of(w["read"]) and w["nodes"] and w["read"].get("rel") and rng.chance(0.5):
+        # relative names: the application changes its working directory between the two reads; the same names
+        # then lead to another tree
+        w["mutation"] = {"kind": "chdir", "drop": rng.pick([None, rng.randrange(100)])}
     return w
 
 
@@ -40,6 +44,15 @@ def mutated_nodes(world):
     import copy
     nodes = copy.deepcopy(world["nodes"])
     m = world["mutation"]
+    if m["kind"] == "chdir":
+        # the tree the relative names lead to after the change of directory: same shape, other values, one node less
+        for n in nodes:
+            for e in n.get("entries", []):
+                if e[2] is not None:
+                    e[2] = "alt-" + e[2]
+        if m.get("drop") is not None and len(nodes) > 1:
+            del nodes[m["drop"] % len(nodes)]
+        return nodes
     if m["kind"] == "rewrite":
         nodes[m["index"] % len(nodes)]["entries"] = m["entries"]
         nodes[m["index"] % len(nodes)].pop("c", None)
@@ -77,7 +90,9 @@ def build_plans(world):
     if world.get("mutation"):
         m = world["mutation"]
         n2 = mutated_nodes(world)
-        if m["kind"] == "delete":
+        if m["kind"] == "chdir":
+            ops.append({"op": "chdir", "path": "$ROOT/alt"})
+        elif m["kind"] == "delete":
             ops.append({"op": "env_unlink", "path": world["nodes"][m["index"] % len(world["nodes"])]["p"]})
         else:
             target = n2[m["index"] % len(n2)] if m["kind"] == "rewrite" else n2[-1]
@@ -89,7 +104,11 @@ def build_plans(world):
             ops.append(dict(gen.read_op(read, o=1, cb=cb), tag="read2"))
         ops.append({"op": "dump", "k": 1, "ext": False, "tag": "dump2"})
         ops.append({"op": "free", "k": 1})
-    return [{"cfg": world["cfg"], "tree": gen.tree_plan(world["nodes"]), "ops": ops}]
+    tree = gen.tree_plan(world["nodes"])
+    if world.get("mutation", {}).get("kind") == "chdir":
+        import json
+        tree += json.loads(json.dumps(gen.tree_plan(mutated_nodes(world))).replace("$ROOT", "$ROOT/alt"))
+    return [{"cfg": world["cfg"], "tree": tree, "ops": ops}]
 
 
 def layered_signature(world, model):
